@@ -80,7 +80,26 @@ def image_spec(fspec, spec, cls):
 
 def name_key(box):
     return (box.name, frozenset([specs.tkey(box.dom), specs.tkey(box.cod)]),
-            type(box).__name__)
+            type(box).__name__, repr(box.data))
+
+
+def with_data(spec, like, value):
+    """ The spec with `value` as the data of every occurrence of the
+    generator of box spec `like`. """
+    return dict(spec, layers=[
+        [dict(b, data=value) if b["k"] == "box"
+         and gen_key(b) == gen_key(like) else b, off]
+        for b, off in spec["layers"]])
+
+
+def gen_box(cls, falsy, name, dom, cod, word=False):
+    """ The library box of a generator; `falsy` = [box spec, value] names the
+    generator that carries (falsy) data, if any. """
+    b = {"k": "box", "name": name, "dom": [list(x) for x in dom],
+         "cod": [list(x) for x in cod], "dag": False, "word": word}
+    if falsy and gen_key(b) == gen_key(falsy[0]):
+        b["data"] = falsy[1]
+    return specs.box(cls, b)
 
 
 def build_functor(fspec, cls):
@@ -94,10 +113,7 @@ def build_functor(fspec, cls):
               for n, img in obmap.items()}
     ar = {}
     for (name, dom, cod, word), img in fspec["images"].items():
-        box = specs.box(cls, {"k": "box", "name": name,
-                              "dom": [list(x) for x in dom],
-                              "cod": [list(x) for x in cod], "dag": False,
-                              "word": word})
+        box = gen_box(cls, fspec.get("falsy"), name, dom, cod, word)
         ar[box] = specs.build(img, fspec.get("route", "ctor"))
     if fspec.get("callable"):
         ob_d, ar_d = ob, ar
@@ -157,9 +173,19 @@ def functor_cases(draw, tier):
                     cls, image_type(obmap, dom), image_type(obmap, cod),
                     pool=tpool, names=TARGET, max_boxes=2, max_width=5))
             images.append(entry)
+    # one generator carries data that is there but falsy
+    falsy = draw(st.sampled_from([None, None, 0, [], {}, "", 0.0, False]))
+    boxes = [b for s in (d, e, par) for b, _ in s["layers"]
+             if b["k"] == "box"]
+    extra = {}
+    if falsy is not None and boxes:
+        like = dict(draw(st.sampled_from(boxes)), dag=False)
+        like = dict(like, dom=gen_key(like)[1], cod=gen_key(like)[2])
+        d, e, par = (with_data(s, like, falsy) for s in (d, e, par))
+        extra = {"falsy": [like, falsy]}
     n = len(d["layers"])
     i = draw(st.integers(0, n))
-    return {"cls": cls, "d": d, "e": e, "par": par, "ob": obmap,
+    return {"cls": cls, "d": d, "e": e, "par": par, "ob": obmap, **extra,
             "images": images, "callable": draw(st.booleans()),
             "cut": [i, draw(st.integers(i, n))],
             "route": draw(st.sampled_from(["ctor", "whisker"]))}
@@ -167,6 +193,7 @@ def functor_cases(draw, tier):
 
 def fspec_of(case):
     return {"ob": case["ob"], "callable": case["callable"],
+            "falsy": case.get("falsy"),
             "images": {(g["gen"][0], specs.skey_ty(g["gen"][1]),
                         specs.skey_ty(g["gen"][2]),
                         bool(g["gen"][3]) if len(g["gen"]) > 3 else False):
@@ -269,14 +296,11 @@ def check_sum_images_cat(case, with_alt):
     fspec = fspec_of(case)
     ar = {}
     for (name, dom, cod, word), img in fspec["images"].items():
-        box = specs.box("cat", {"k": "box", "name": name,
-                                "dom": [list(x) for x in dom],
-                                "cod": [list(x) for x in cod], "dag": False})
+        box = gen_box("cat", case.get("falsy"), name, dom, cod)
         ar[box] = specs.build(img)
     for g in with_alt:
         name, dom, cod = g["gen"][:3]
-        box = specs.box("cat", {"k": "box", "name": name, "dom": dom,
-                                "cod": cod, "dag": False})
+        box = gen_box("cat", case.get("falsy"), name, dom, cod)
         ar[box] = specs.build(g["image"]) + specs.build(g["alt"])
     G = cat.Functor(ob, ar)
     if not len(d) or any(b.is_dagger for b in d.boxes):
@@ -304,8 +328,7 @@ def check_sum_images(case, cls):
     for g in with_alt:
         name, dom, cod = g["gen"][:3]
         word = g["gen"][3] if len(g["gen"]) > 3 else False
-        box = specs.box(cls, {"k": "box", "name": name, "dom": dom,
-                              "cod": cod, "dag": False, "word": word})
+        box = gen_box(cls, case.get("falsy"), name, dom, cod, word)
         ar[box] = specs.build(g["image"]) + specs.build(g["alt"])
         boxes.append(box)
     G = m.Functor(ob, ar)
